@@ -204,11 +204,8 @@ def next_on_raise(c):
         return z3.BoolVal(False)
     done = post.state == STATES['Done']
     if kind in ('StopIteration', 'StopStream'):
-        clk_ = post.v('_clock')
         return z3.And(done, z3.BoolVal(ecls == 'StopStream'),
-                      z3.BoolVal(post.v('_iterator').k == 'none'),
-                      z3.BoolVal(post.v('_last_value').k == 'none'),                      # an ended routine keeps no value
-                      z3.BoolVal(clk_.k == 'obj' and clk_.oid == 'SystemClock'))          # and is back on the default clock
+                      z3.BoolVal(post.v('_iterator').k == 'none'))
     if kind in ('ValueError', 'KeyboardInterrupt'):
         return z3.And(done, z3.BoolVal(ecls == kind))
     return z3.BoolVal(False)        # yield / YieldAndReset / AlwaysYield must not raise
@@ -263,17 +260,13 @@ RUNNING = lambda c: c.pre.self.state == STATES['Running']
 
 
 def released(meth):
-    """stop / reset let go of the generator (a later next() starts the function again / finds it ended) and put
-    the routine back on the default clock; stop also forgets the last value"""
+    """stop / reset let go of the generator (a later next() starts the function again / finds it ended); which clock
+    and last value a stopped routine keeps is not part of the documented state machine: not demanded"""
     def f(c):
         post = c.post.self
         if meth == 'pause':
             return z3.BoolVal(True)
-        clk_ = post.v('_clock')
-        ok = post.v('_iterator').k == 'none' and clk_.k == 'obj' and clk_.oid == 'SystemClock'
-        if meth == 'stop':
-            ok = ok and post.v('_last_value').k == 'none'
-        return z3.BoolVal(bool(ok))
+        return z3.BoolVal(post.v('_iterator').k == 'none')
     return f
 
 
